@@ -639,7 +639,7 @@ def creation_cases(rnd, n, prefix="C"):
             dn = "n" + b
             meta["dtype"] = dn
             meta["dclass"] = dclass(dn)
-            kind = rnd.choice(["scalar", "broadcast", "full", "nomask"])
+            kind = rnd.choice(["scalar", "full", "nomask"])
             meta["mask_kind"] = kind
             x = ops.tensor(rnd, b, sh, "small")
             if kind == "scalar":
@@ -660,10 +660,10 @@ def creation_cases(rnd, n, prefix="C"):
             fill = {"bool": "True", "utf8": "'ab'"}.get(b, rnd.choice(["3", "-2", "0"]) if b in ops.INTS and not b.startswith("u") else "3")
             dkw = "" if dts is None else f", dtype=ndx.{d}"
             if f == "full":
-                ndk = "" if dts is None else f", dtype={npd}"
+                ndk = "" if dts is None or b == "utf8" else f", dtype={npd}"
                 orc = f"out = np.full({shp}, {fill}{ndk})"
                 if dts is not None and ops.nullable(d):
-                    orc = f"out = mk(np.full({shp}, {fill}, dtype={npd}), False)"
+                    orc = f"out = mk(np.full({shp}, {fill}" + ("" if b == "utf8" else f", dtype={npd}") + "), False)"
                 out.append({"id": cid, "inputs": {}, "meta": meta, "tol": [0, 0], "lazy_subsets": [{"names": []}],
                             "impl": f"out = ndx.full({shp}, {fill}{dkw})", "oracle": orc})
             else:
@@ -690,6 +690,8 @@ def creation_cases(rnd, n, prefix="C"):
                 orc = f"out = mk(np.{npf}(data(x){arg}), False)"
             else:
                 orc = f"out = np.{npf}(x{arg})"
+            if b == "utf8" and f == "full_like":     # NumPy would truncate to x's string width
+                orc = "out = mk(np.full(np.shape(x), 'ab'), False)" if ops.nullable(d) else "out = np.full(np.shape(x), 'ab')"
             out.append(mkcase(cid, {"x": x}, f"out = ndx.{f}(x{arg})", orc, meta, rnd))
         elif f == "eye":
             nr, nc, k = rnd.choice([0, 1, 2, 3, 5]), rnd.choice([None, 0, 1, 2, 4]), rnd.randint(-3, 3)
@@ -697,6 +699,7 @@ def creation_cases(rnd, n, prefix="C"):
             dkw = "" if dts is None else f", dtype=ndx.{dts}"
             ndk = "" if dts is None else f", dtype=np.{dts}"
             meta["dtype"] = dts or "float64"
+            meta["dclass"] = dclass(meta["dtype"])
             out.append({"id": cid, "inputs": {}, "meta": meta, "tol": [0, 0], "lazy_subsets": [{"names": []}],
                         "impl": f"out = ndx.eye({nr}, {nc}, k={k}{dkw})", "oracle": f"out = np.eye({nr}, {nc}, k={k}{ndk})"})
         elif f == "arange":
@@ -707,16 +710,19 @@ def creation_cases(rnd, n, prefix="C"):
                 form = rnd.choice(["stop", "startstop", "full"])
                 args = {"stop": f"{abs(bb)}", "startstop": f"{a}, {bb}", "full": f"{a}, {bb}, {s}"}[form]
                 meta["dtype"] = "int64"
+                meta["dclass"] = "int"
                 out.append({"id": cid, "inputs": {}, "meta": meta, "tol": [0, 0], "lazy_subsets": [{"names": []}],
                             "impl": f"out = ndx.arange({args})", "oracle": f"out = np.arange({args})"})
             else:
                 a, bb, s = rnd.choice([0.0, 0.5, -1.0, 1.0]), rnd.choice([1.0, 2.0, 3.5, -2.0]), rnd.choice([0.1, 0.25, 0.5, -0.5, 0.3])
                 meta["dtype"] = "float64"
+                meta["dclass"] = "float"
                 out.append({"id": cid, "inputs": {}, "meta": meta, "tol": [0, 0], "lazy_subsets": [{"names": []}],
                             "impl": f"out = ndx.arange({a}, {bb}, {s})", "oracle": f"out = np.arange({a}, {bb}, {s})"})
         elif f == "linspace":
             a, bb, num, ep = rnd.choice([0, -1.5, 2]), rnd.choice([1, 10.0, -3]), rnd.choice([0, 1, 2, 5, 9]), rnd.random() < 0.5
             meta["dtype"] = "float64"
+            meta["dclass"] = "float"
             out.append({"id": cid, "inputs": {}, "meta": meta, "tol": [0, 0], "lazy_subsets": [{"names": []}],
                         "impl": f"out = ndx.linspace({a}, {bb}, {num}, endpoint={ep})", "oracle": f"out = np.linspace({a}, {bb}, {num}, endpoint={ep})"})
         elif f == "lazy_shape":
